@@ -187,17 +187,40 @@ def _eval_cond(node, svalue: str, svar: str):
 
 
 def kwargs_per_scheme(ctx: Ctx, values: list[str]) -> tuple[Func, dict[str, dict | None]]:
-    """For each scheme value: {kwarg name -> source expression text} that add_schemes passes, or None if undecidable."""
-    add = ctx.sm.func("cli/utils.py", "add_schemes")
+    """For each scheme value: {kwarg name -> source expression text} that add_schemes passes, or None if undecidable.
+    Works on the loop normal form of add_schemes (comprehensions unrolled, helpers inlined)."""
+    from sa.inline import inlined
+
+    add0 = ctx.sm.func("cli/utils.py", "add_schemes")
+    add = inlined(ctx.sm, add0)
     loops = [n for n in ast.walk(add.node) if isinstance(n, ast.For)]
-    if not loops:
-        raise AnalysisError("add_schemes: loop over the schemes not found")
-    loop = loops[0]
+    loop = None
+    for l in loops:
+        if any(isinstance(c, ast.Call) and isinstance(c.func, ast.Attribute) and c.func.attr == "scheme" for c in ast.walk(l)):
+            loop = l
+            break
+    if loop is None:
+        raise AnalysisError("add_schemes: loop (or comprehension) that calls codegen.scheme(...) for each scheme not found")
     cands = [x.id for x in ast.walk(loop.target) if isinstance(x, ast.Name)]
     body_txt = " ".join(norm(st) for st in loop.body)
     svar = next((c for c in cands if f"{c}.value" in body_txt), cands[0] if cands else None)
     if svar is None:
         raise AnalysisError("add_schemes: loop variable over the schemes not found")
+    scall = [c for c in ast.walk(loop) if isinstance(c, ast.Call) and isinstance(c.func, ast.Attribute) and c.func.attr == "scheme"][0]
+    star = [k.value for k in scall.keywords if k.arg is None]
+    # the dict(s) that end up in **kwargs (following plain aliases)
+    dict_names: set[str] = set()
+    for sv in star:
+        if isinstance(sv, ast.Name):
+            dict_names.add(sv.id)
+    changed = True
+    while changed:
+        changed = False
+        for n in ast.walk(loop):
+            if isinstance(n, ast.Assign) and len(n.targets) == 1 and isinstance(n.targets[0], ast.Name) and isinstance(n.value, ast.Name):
+                if n.targets[0].id in dict_names and n.value.id not in dict_names:
+                    dict_names.add(n.value.id)
+                    changed = True
     out: dict[str, dict | None] = {}
     for v in values:
         kw: dict | None = {}
@@ -210,32 +233,37 @@ def kwargs_per_scheme(ctx: Ctx, values: list[str]) -> tuple[Func, dict[str, dict
                 if isinstance(st, ast.If):
                     c = _eval_cond(st.test, v, svar)
                     if c is None:
-                        kw = None
-                        return
+                        if any(isinstance(x, (ast.Subscript, ast.Name)) and norm(x).split("[")[0] in dict_names for n2 in ast.walk(st) if isinstance(n2, ast.Assign) for x in n2.targets):
+                            kw = None
+                            return
+                        continue
                     run(st.body if c else st.orelse)
                 elif isinstance(st, (ast.Assign, ast.AnnAssign)):
                     tgts = st.targets if isinstance(st, ast.Assign) else [st.target]
                     for t in tgts:
-                        if isinstance(t, ast.Subscript) and isinstance(t.value, ast.Name) and t.value.id == "kwargs" and isinstance(t.slice, ast.Constant):
+                        if isinstance(t, ast.Subscript) and isinstance(t.value, ast.Name) and t.value.id in dict_names and isinstance(t.slice, ast.Constant):
                             kw[t.slice.value] = norm(st.value)
-                        elif isinstance(t, ast.Name) and t.id == "kwargs" and st.value is not None:
-                            if isinstance(st.value, ast.Dict):
-                                kw = {const_str(k): norm(val) for k, val in zip(st.value.keys, st.value.values) if k is not None}
+                        elif isinstance(t, ast.Name) and t.id in dict_names and st.value is not None and isinstance(st.value, ast.Dict):
+                            kw.update({const_str(k): norm(val) for k, val in zip(st.value.keys, st.value.values) if k is not None})
                 elif isinstance(st, ast.Expr) and isinstance(st.value, ast.Call):
                     d = dotted(st.value.func) or ""
-                    if d == "kwargs.update":
+                    if d.split(".")[0] in dict_names and d.endswith(".update"):
                         for k in st.value.keywords:
                             kw[k.arg] = norm(k.value)
-                    elif d.endswith(".append") or d.endswith("scheme"):
-                        for c in ast.walk(st.value):
-                            if isinstance(c, ast.Call) and (dotted(c.func) or "").endswith("codegen.scheme"):
-                                for k in c.keywords:
-                                    if k.arg is not None:
-                                        kw[k.arg] = norm(k.value)
+                        for a in st.value.args:
+                            if isinstance(a, ast.Dict):
+                                kw.update({const_str(k): norm(val) for k, val in zip(a.keys, a.values) if k is not None})
 
         run(loop.body)
+        if kw is not None:
+            for k in scall.keywords:
+                if k.arg is not None:
+                    kw[k.arg] = norm(k.value)
+            for sv in star:
+                if isinstance(sv, ast.Dict):
+                    kw.update({const_str(k): norm(val) for k, val in zip(sv.keys, sv.values) if k is not None})
         out[v] = kw
-    return add, out
+    return add0, out
 
 
 STANDARD_BUILDER_PARAMS = ("ode", "dt", "name", "printer", "remove_unused")
@@ -278,3 +306,73 @@ def check_scheme_kwargs(ctx: Ctx, rule: str, option: str, only_builders=None):
                 f"add_schemes passes {option} for scheme '{v}' whose builder {builder} has no such parameter",
                 add.where(),
             )
+
+
+# ---------------------------------------------------------------------------
+# purity helpers
+
+MUTATORS = {"append", "extend", "insert", "remove", "pop", "clear", "sort", "reverse", "add", "discard", "update", "setdefault", "popitem", "difference_update", "intersection_update", "symmetric_difference_update", "__setitem__", "__delitem__"}
+
+
+def param_mutations(f: Func) -> list[tuple[ast.AST, str]]:
+    """Statements of ``f`` that modify an object received as argument (directly or through a plain local alias)."""
+    params = {p for p in f.params if p not in ("self", "cls")}
+    alias: dict[str, str] = {}
+    changed = True
+    while changed:
+        changed = False
+        for n in walk_no_nested(f.node):
+            if isinstance(n, ast.Assign) and len(n.targets) == 1 and isinstance(n.targets[0], ast.Name) and isinstance(n.value, ast.Name):
+                src = n.value.id
+                root = src if src in params else alias.get(src)
+                if root and n.targets[0].id not in params and alias.get(n.targets[0].id) != root:
+                    # only a *pure* alias counts: the local is never rebound to anything else
+                    others = [a for a in walk_no_nested(f.node) if isinstance(a, (ast.Assign, ast.AugAssign, ast.AnnAssign)) and a is not n and any(isinstance(x, ast.Name) and x.id == n.targets[0].id and isinstance(x.ctx, ast.Store) for t in (a.targets if isinstance(a, ast.Assign) else [a.target]) for x in ast.walk(t))]
+                    if not others:
+                        alias[n.targets[0].id] = root
+                        changed = True
+    # parameters that are rebound before use (x = list(x), x = x or []) no longer refer to the caller's object
+    # (only an unconditional rebinding counts: `if x is None: x = []` leaves the caller's object in place otherwise)
+    rebound = set()
+    for n in f.node.body:
+        if isinstance(n, ast.Assign):
+            for t in n.targets:
+                if isinstance(t, ast.Name) and t.id in params:
+                    rebound.add(t.id)
+    out = []
+
+    def root_of(node):
+        while isinstance(node, (ast.Attribute, ast.Subscript)):
+            node = node.value
+        if isinstance(node, ast.Name):
+            if node.id in params and node.id not in rebound:
+                return node.id
+            r = alias.get(node.id)
+            if r and r not in rebound:
+                return r
+        return None
+
+    for n in walk_no_nested(f.node):
+        if isinstance(n, ast.Call) and isinstance(n.func, ast.Attribute) and n.func.attr in MUTATORS:
+            recv = n.func.value
+            if isinstance(recv, ast.Name):
+                r = root_of(recv)
+                if r:
+                    out.append((n, f"{norm(n)[:60]} modifies the caller's `{r}`"))
+        tg = []
+        if isinstance(n, ast.Assign):
+            tg = n.targets
+        elif isinstance(n, ast.AugAssign):
+            tg = [n.target]
+        elif isinstance(n, ast.Delete):
+            tg = n.targets
+        for t in tg:
+            if isinstance(t, ast.Subscript):
+                r = root_of(t)
+                if r:
+                    out.append((n, f"{norm(n)[:60]} stores into the caller's `{r}`"))
+            elif isinstance(t, ast.Name) and isinstance(n, ast.AugAssign) and (t.id in alias or (t.id in params and t.id not in rebound)):
+                # x += [...] on a list argument extends it in place
+                if isinstance(n.op, ast.Add) and isinstance(n.value, (ast.List, ast.ListComp)):
+                    out.append((n, f"{norm(n)[:60]} extends the caller's `{alias.get(t.id, t.id)}` in place"))
+    return out
